@@ -58,6 +58,10 @@ def instantiate(ob):
     by_kind = {}
     for kind, t in list(ob.terms) + list(ob.skolems):
         by_kind.setdefault(kind, {})[str(t)] = t
+    # a schema over configurations is also instantiated on the goal's reference Skolems
+    for kind, t in ob.skolems:
+        if kind == "ref":
+            by_kind.setdefault("cfg", {})[str(t)] = t
     out = []
     for sch in ob.schemas:
         for t in by_kind.get(sch.kind, {}).values():
@@ -146,8 +150,10 @@ def verify_function(src, reg, qual, timeout_ms=10000, select=None):
                 f = src.find_method(k, mname) if kind != "setter" else src.find_setter(k, mname)
                 if f and f[0] == cls:
                     users.append(k)
-            elif k.startswith("User"):
-                users.append(k)
+            else:
+                f = src.find_method(k, mname) if kind != "setter" else src.find_setter(k, mname)
+                if f and f[0] == cls:
+                    users.append(k)
         selfr = o.r(names[params[0]])
         st.assume(z3.Or([w.cls_of(selfr) == w.CLS[k] for k in users]))
     init = st.clone()
